@@ -372,8 +372,26 @@ func (vm *VM) registerIndirectStructLocked(field *fieldVM) error {
 		F2:
 			for {
 				switch tt.Kind() {
-				case reflect.Slice, reflect.Array, reflect.Map, reflect.Ptr:
+				case reflect.Map:
+					// the keys of an inner map may be (or hold) structs as well
+					if kk := derefType(tt.Key()); kk.Kind() == reflect.Struct || kk.Kind() == reflect.Interface {
+						if kk.Kind() == reflect.Struct {
+							if _, err := vm.registerStructLocked(kk); err != nil {
+								return err
+							}
+						}
+						field.mapOrSliceIfaceKinds[i] = true
+						field.origin.fieldsWithIndirectStructVM = appendDistinct(field.origin.fieldsWithIndirectStructVM, field)
+						break F2
+					}
 					tt = tt.Elem()
+				case reflect.Slice, reflect.Array, reflect.Ptr:
+					tt = tt.Elem()
+				case reflect.Interface:
+					// an interface at the end of the chain may hold a struct: walked at run time
+					field.mapOrSliceIfaceKinds[i] = true
+					field.origin.fieldsWithIndirectStructVM = appendDistinct(field.origin.fieldsWithIndirectStructVM, field)
+					break F2
 				case reflect.Struct:
 					_, err := vm.registerStructLocked(tt)
 					if err != nil {
